@@ -34,6 +34,7 @@ typedef struct {
 } excl_t;
 static excl_t E;
 
+static void bail(void) { if (vf_nviolations) { fflush(stdout); _exit(1); } }
 static inline void cs_body(vf_rng_t *rng, int cs_max) {
     int n = cs_max ? (int)vf_randn(rng, cs_max) : 0;
     for (volatile int i = 0; i < n; i++) ;
@@ -50,6 +51,7 @@ static inline int do_read(int tid, vf_rng_t *rng, int cs_max, long *shared, long
     if (old & 0xffffffff) { (*shared)++; if ((long)(old & 0xffffffff) + 1 > *maxr) *maxr = (long)(old & 0xffffffff) + 1; }
     uint64_t a = da; cs_body(rng, cs_max); uint64_t b = db;
     if (a != b) vf_violation("rwlock:reader-saw-torn-write", "thread %d read the protected pair as %llu/%llu inside a read section", tid, (unsigned long long)a, (unsigned long long)b);
+    bail();
     __atomic_fetch_sub(&occ, 1, __ATOMIC_SEQ_CST);
     parsec_atomic_rwlock_rdunlock(&L);
     return vf_nviolations == 0;
@@ -63,6 +65,7 @@ static inline int do_write(int tid, vf_rng_t *rng, int cs_max, long *cont) {
     else if (old & 0xffffffff) vf_violation("rwlock:writer-with-reader", "thread %d entered as writer while %d reader(s) were inside", tid, (int)(old & 0xffffffff));
     if (da != db) vf_violation("rwlock:writer-saw-torn-write", "thread %d found the protected pair torn (%llu/%llu) on write entry", tid, (unsigned long long)da, (unsigned long long)db);
     uint64_t x = da + 1; da = x; cs_body(rng, cs_max); db = x;
+    bail();
     __atomic_fetch_sub(&occ, WONE, __ATOMIC_SEQ_CST);
     parsec_atomic_rwlock_wrunlock(&L);
     return vf_nviolations == 0;
@@ -167,6 +170,97 @@ static int run_starve(int argc, char **argv) {
     return vf_nviolations ? 1 : 0;
 }
 
+/* ------------------------------------------------------------------ episodes mode: many short bounded runs from a fresh lock */
+#define EP_MAXC 6
+typedef struct { int tid, role; uint64_t inv, acq, rel; } ev_t;
+typedef struct {
+    int nthreads, maxcycles; uint64_t seed; int cs_max;
+    vf_spinbar_t bar; volatile int stop; volatile long ep_no;
+    ev_t ev[MAXT][EP_MAXC]; int nev[MAXT];
+} ep_t;
+static ep_t P;
+static void ep_worker(int tid, int nt, void *arg) {
+    (void)arg; (void)nt; vf_rng_t rng;
+    for (;;) {
+        vf_spinbar_wait(&P.bar);
+        if (P.stop) return;
+        vf_rng_seed(&rng, P.seed + (uint64_t)P.ep_no * 2654435761ULL, tid + 1);
+        int c = 1 + (int)vf_randn(&rng, (uint32_t)P.maxcycles), wperm = (int[]){500, 200, 800, 1000, 0}[vf_randn(&rng, 5)];
+        for (int k = 0; k < c; k++) {
+            ev_t *e = &P.ev[tid][k]; e->tid = tid; e->role = vf_chance(&rng, (uint32_t)wperm);
+            e->inv = vf_stamp();
+            if (e->role) {
+                parsec_atomic_rwlock_wrlock(&L);
+                uint64_t old = __atomic_fetch_add(&occ, WONE, __ATOMIC_SEQ_CST); e->acq = vf_stamp();
+                if (old >> 32) vf_violation("rwlock:two-writers", "episode %ld: thread %d entered as writer while %d writer(s) were inside", P.ep_no, tid, (int)(old >> 32));
+                else if (old & 0xffffffff) vf_violation("rwlock:writer-with-reader", "episode %ld: thread %d entered as writer while %d reader(s) were inside", P.ep_no, tid, (int)(old & 0xffffffff));
+                uint64_t x = da + 1; da = x; cs_body(&rng, P.cs_max); db = x;
+                bail(); e->rel = vf_stamp(); __atomic_fetch_sub(&occ, WONE, __ATOMIC_SEQ_CST);
+                parsec_atomic_rwlock_wrunlock(&L);
+            } else {
+                parsec_atomic_rwlock_rdlock(&L);
+                uint64_t old = __atomic_fetch_add(&occ, 1, __ATOMIC_SEQ_CST); e->acq = vf_stamp();
+                if (old >> 32) vf_violation("rwlock:reader-with-writer", "episode %ld: thread %d entered as reader while %d writer(s) were inside", P.ep_no, tid, (int)(old >> 32));
+                uint64_t a = da; cs_body(&rng, P.cs_max); uint64_t b = db;
+                if (a != b) vf_violation("rwlock:reader-saw-torn-write", "episode %ld: thread %d read the protected pair as %llu/%llu", P.ep_no, tid, (unsigned long long)a, (unsigned long long)b);
+                bail(); e->rel = vf_stamp(); __atomic_fetch_sub(&occ, 1, __ATOMIC_SEQ_CST);
+                parsec_atomic_rwlock_rdunlock(&L);
+            }
+            VF_TICK();
+        }
+        P.nev[tid] = c;
+        vf_spinbar_wait(&P.bar);
+    }
+}
+static uint64_t *sigset; static size_t sigcap, nsig;
+static int sig_add(uint64_t s) {
+    if (!s) s = 1;
+    size_t i = (size_t)(s % sigcap);
+    while (sigset[i]) { if (sigset[i] == s) return 0; i = (i + 1) % sigcap; }
+    if (nsig * 2 < sigcap) { sigset[i] = s; nsig++; }
+    return 1;
+}
+static int run_episodes(int argc, char **argv) {
+    long nep = vf_arg_ll(argc, argv, "--episodes", 2000);
+    P.nthreads = (int)vf_arg_ll(argc, argv, "--threads", 3); if (P.nthreads > MAXT) P.nthreads = MAXT;
+    P.maxcycles = (int)vf_arg_ll(argc, argv, "--cycles", 4); if (P.maxcycles > EP_MAXC) P.maxcycles = EP_MAXC;
+    P.seed = (uint64_t)vf_arg_ll(argc, argv, "--seed", 1); P.cs_max = (int)vf_arg_ll(argc, argv, "--cs", 100);
+    int yp = parsec_verif_yield_permille;
+    sigcap = 1 << 20; sigset = calloc(sigcap, sizeof(uint64_t));
+    vf_spinbar_init(&P.bar, P.nthreads + 1);
+    pthread_t th[MAXT]; vf_team_ctx_t cx[MAXT]; pthread_barrier_t pb; pthread_barrier_init(&pb, NULL, (unsigned)P.nthreads);
+    for (int i = 0; i < P.nthreads; i++) { cx[i] = (vf_team_ctx_t){ep_worker, NULL, i, P.nthreads, &pb}; pthread_create(&th[i], NULL, vf_team_tramp, &cx[i]); }
+    long done = 0, nontrivial = 0, distinct = 0, racq = 0, wacq = 0, samples = 0, writes = 0; vf_rng_t mr; vf_rng_seed(&mr, P.seed, 77);
+    for (long ep = 0; ep < nep && !vf_nviolations; ep++) {
+        P.ep_no = ep;
+        /* fresh lock, aged by a few uncontended cycles so that writer ticket parity (phase id) and reader counts vary */
+        parsec_atomic_rwlock_init(&L); parsec_verif_yield_permille = 0;
+        int kw = (int)vf_randn(&mr, 4), kr = (int)vf_randn(&mr, 3);
+        for (int k = 0; k < kw; k++) { parsec_atomic_rwlock_wrlock(&L); parsec_atomic_rwlock_wrunlock(&L); }
+        for (int k = 0; k < kr; k++) { parsec_atomic_rwlock_rdlock(&L); parsec_atomic_rwlock_rdunlock(&L); }
+        parsec_verif_yield_permille = yp;
+        vf_spinbar_wait(&P.bar); vf_spinbar_wait(&P.bar);
+        if (vf_nviolations) break;
+        ev_t all[MAXT * EP_MAXC]; int n = 0; for (int t = 0; t < P.nthreads; t++) for (int k = 0; k < P.nev[t]; k++) all[n++] = P.ev[t][k];
+        for (int i = 1; i < n; i++) { int j = i; while (j > 0 && all[j - 1].acq > all[j].acq) { ev_t tmp = all[j]; all[j] = all[j - 1]; all[j - 1] = tmp; j--; } }
+        /* offline form of the exclusion oracle on the stamps (acq taken after acquiring, rel before releasing) */
+        for (int i = 0; i < n && !vf_nviolations; i++) for (int j = i + 1; j < n; j++) if (all[i].tid != all[j].tid && (all[i].role || all[j].role) && all[j].acq < all[i].rel)
+            { vf_violation(all[i].role && all[j].role ? "rwlock:two-writers" : "rwlock:writer-with-reader", "episode %ld: thread %d (%s) held the lock over stamps %llu-%llu, thread %d (%s) over %llu-%llu", ep, all[i].tid, all[i].role ? "writer" : "reader",
+                           (unsigned long long)all[i].acq, (unsigned long long)all[i].rel, all[j].tid, all[j].role ? "writer" : "reader", (unsigned long long)all[j].acq, (unsigned long long)all[j].rel); break; }
+        int cont = 0; uint64_t sig = vf_mix(0x33, (uint64_t)(kw * 8 + kr));
+        for (int i = 0; i < n; i++) { sig = vf_mix(sig, (uint64_t)(all[i].tid * 2 + all[i].role)); if (all[i].role) { wacq++; writes++; } else racq++;
+            for (int j = 0; j < n; j++) if (all[i].tid != all[j].tid && (all[i].role || all[j].role) && all[i].inv < all[j].rel && all[j].inv < all[i].rel) cont = 1; }
+        done++; if (cont) { nontrivial++; if (sig_add(sig)) distinct++; }
+        if (cont && samples < 3 && n >= 5) { samples++; char buf[600]; int p = 0; for (int i = 0; i < n && p < 560; i++) p += snprintf(buf + p, sizeof buf - p, "[t%d %s inv@%llu in@%llu out@%llu] ", all[i].tid, all[i].role ? "W" : "R", (unsigned long long)all[i].inv, (unsigned long long)all[i].acq, (unsigned long long)all[i].rel);
+            vf_out("{\"type\":\"episode\",\"pre_write_cycles\":%d,\"pre_read_cycles\":%d,\"events\":\"%s\"}", kw, kr, buf); }
+    }
+    P.stop = 1; vf_spinbar_wait(&P.bar);
+    for (int i = 0; i < P.nthreads; i++) pthread_join(th[i], NULL);
+    vf_out("{\"type\":\"summary\",\"mode\":\"episodes\",\"episodes\":%ld,\"nontrivial\":%ld,\"distinct\":%ld,\"racq\":%ld,\"wacq\":%ld,\"threads\":%d,\"yield_hits\":%llu}",
+           done, nontrivial, distinct, racq, wacq, P.nthreads, (unsigned long long)vf_yield_hits(PARSEC_VERIF_SITE_RWLOCK));
+    return vf_nviolations ? 1 : 0;
+}
+
 int main(int argc, char **argv) {
     (void)pad0;
     const char *mode = vf_arg(argc, argv, "--mode", "excl");
@@ -176,7 +270,7 @@ int main(int argc, char **argv) {
     long pw = vf_arg_ll(argc, argv, "--prewarm", 0);
     if (pw > 0) prewarm(pw);
     vf_yield_config((uint64_t)vf_arg_ll(argc, argv, "--seed", 1), (int)vf_arg_ll(argc, argv, "--yield", 0), (int)vf_arg_ll(argc, argv, "--yield-us", 0), 1ULL << PARSEC_VERIF_SITE_RWLOCK);
-    int rc = !strcmp(mode, "starve") ? run_starve(argc, argv) : run_excl(argc, argv);
+    int rc = !strcmp(mode, "starve") ? run_starve(argc, argv) : !strcmp(mode, "episodes") ? run_episodes(argc, argv) : run_excl(argc, argv);
     vf_heartbeat_stop();
     return rc;
 }
